@@ -15,7 +15,7 @@
        `value if value_missing_dims > 0 else (value[0] if value.shape[0] == 1 else value[v_idx])`
        and the leaf stores the element or, when it equals the fill value, deletes the key. *)
 From Coq Require Import ZArith List Bool.
-From Verif Require Import Py PyExt G_slicing G_dok PySlice Shape Slicing COO NpAssign.
+From Verif Require Import Py PyExt G_slicing G_dok PySlice Shape Slicing COO NpIndex CooIndex NpAssign.
 Import ListNotations.
 Open Scope Z_scope.
 
@@ -158,6 +158,29 @@ Section DOK.
     ents <- normalize_key es sh ;;
     setitem_go fill ents [] v st.
 
+  (* __setitem__ on a general basic index (Ellipsis, None, ints, slices): the WHOLE
+     normalize_index of Model/CooIndex.v (replace_ellipsis, padding, the too-many test, none_shape,
+     check_index, sanitize, replace_none / posify / clip — agent c02b's transcription over the
+     generated fragments), then key_list = the normalised entries and _setitem, where entry i
+     faces self.shape[i] (POSITION i of key_list: after a None the extents are misaligned, but a
+     None is never passed — it is neither a slice nor an Integral, so _setitem raises IndexError
+     as soon as every slice before it has been expanded) *)
+  Definition nentry_pv (e : nentry) : pyv :=
+    match e with
+    | NInt i => VInt i
+    | NSlice s e' st => VSlice (VInt s) (VInt e') (VInt st)
+    | NNone => VNone
+    | NArr l => VArr l
+    end.
+
+  Definition ents_of_nix (nix : list nentry) (sh : shape) : list (pyv * Z) :=
+    combine (map nentry_pv nix) (sh ++ repeat 0 (length nix - length sh)).
+
+  Definition setitem_index (sh : shape) (fill : V) (st : state) (ix : index) (v : arr V)
+    : res state :=
+    nix <- CooIndex.normalize_index ix sh ;;
+    setitem_go fill (ents_of_nix nix sh) [] v st.
+
   (* ------------------------------------------------------------ _fancy_setitem *)
   (* reached from __setitem__ when the key is a tuple of iterables (for a 1-d array also when
      it is one iterable of integers, e.g. a list or the tuple (i,)).  The index values are
@@ -195,6 +218,8 @@ Section DOK.
     | KBasic es => setitem_basic sh fill st es v
     | KFancy ls => fancy_setitem sh fill st ls v
     | KMask _ => Raise IndexError
+    | KIndex [] => match sh with [_] => Raise IndexError | _ => Raise NotImplementedError end
+    | KIndex ix => setitem_index sh fill st ix v
     end.
 
   (* one assignment of a history: an assignment that raises leaves the dict as it was (all
@@ -219,6 +244,23 @@ Section DOK.
       else a <- axes_of r ;; Ok (ASel (range_list s e st) :: a)
     | _ => Raise TypeError
     end.
+
+  (* the same for a general basic index, through Model/CooIndex.v's normalize_index *)
+  Fixpoint axes_of_nix (nix : list nentry) : res (list axis) :=
+    match nix with
+    | [] => Ok []
+    | NInt k :: r => a <- axes_of_nix r ;; Ok (AInt k :: a)
+    | NSlice s e st :: r =>
+      if st =? 0 then Raise ValueError else a <- axes_of_nix r ;; Ok (ASel (range_list s e st) :: a)
+    | NNone :: r => a <- axes_of_nix r ;; Ok (ANew :: a)
+    | NArr _ :: _ => Raise TypeError            (* index arrays inside a basic key: not in this grammar *)
+    end.
+
+  Definition getitem_index (sh : shape) (fill : V) (st : state) (ix : index)
+    : res (list Z * list V) :=
+    nix <- CooIndex.normalize_index ix sh ;;
+    axs <- axes_of_nix nix ;;
+    Ok (selshape axs, map (abs fill st) (gather_idx axs)).
 
   Definition getitem_basic (sh : shape) (fill : V) (st : state) (es : list kentry)
     : res (list Z * list V) :=
@@ -249,6 +291,8 @@ Section DOK.
       | [_] => fancy_getitem sh fill st [map (fun b : bool => if b then 1 else 0) m]
       | _ => Raise NotImplementedError
       end
+    | KIndex [] => Raise NotImplementedError
+    | KIndex ix => getitem_index sh fill st ix
     end.
 
   (* todense: result = np.full(shape, fill); for c, d in data.items(): result[c] = d *)
@@ -267,6 +311,19 @@ Section DOK.
   (* the key is not the empty tuple () *)
   Definition nonempty_key (es : list kentry) : bool :=
     match es with [] => false | _ => true end.
+
+  (* general basic indices: no None (NumPy accepts x[None, 0] = v; _setitem raises IndexError),
+     no index arrays (outside the property's key grammar), no zero step *)
+  Definition index_nonempty (ix : index) : bool := match ix with [] => false | _ => true end.
+  Definition index_no_newaxis (ix : index) : bool := forallb (fun e => negb (is_new e)) ix.
+  Definition index_no_arrays (ix : index) : bool := forallb (fun e => negb (is_iarr e)) ix.
+  Definition index_no_zero_step (ix : index) : bool :=
+    forallb (fun e => match e with ISlice _ _ (Some 0) => false | _ => true end) ix.
+  Definition index_value_ndim_clause (sh : shape) (ix : index) (v : arr V) : bool :=
+    match np_index_axes sh ix with
+    | Some axs => (length (a_shape v) <=? length (selshape axs))%nat
+    | None => true
+    end.
 
   (* the value has no more axes than the key has slices (NumPy also accepts surplus leading
      axes of extent 1; _setitem raises ValueError) *)
@@ -302,6 +359,8 @@ Section DOK.
     | KBasic es => nonempty_key es && value_ndim_clause sh es (snd op)
     | KFancy ls => fancy_in_range ls sh && fancy_nonempty ls && fancy_value_clause ls (snd op)
     | KMask _ => false
+    | KIndex ix => index_nonempty ix && index_no_newaxis ix && index_no_arrays ix
+                   && index_no_zero_step ix && index_value_ndim_clause sh ix (snd op)
     end.
 
   Definition read_dom (sh : shape) (k : key) : bool :=
@@ -309,6 +368,7 @@ Section DOK.
     | KBasic es => nonempty_key es
     | KFancy ls => fancy_in_range ls sh
     | KMask _ => false
+    | KIndex ix => index_nonempty ix && index_no_arrays ix && index_no_zero_step ix
     end.
 End DOK.
 
@@ -324,6 +384,9 @@ Arguments loop {V}.
 Arguments ndim {V}.
 Arguments setitem_go {V}.
 Arguments setitem_basic {V}.
+Arguments setitem_index {V}.
+Arguments getitem_index {V}.
+Arguments index_value_ndim_clause {V}.
 Arguments fancy_setitem {V}.
 Arguments setitem {V}.
 Arguments step {V}.
